@@ -886,11 +886,37 @@ pub fn gen_world(opts: &WorldOpts) -> World {
             }
         }
         let id = if adv && t > 0 && chance("dump.thread.dup_id", 1, 12) { 0x1000 + (t as u32 - 1) } else { 0x1000 + t as u32 };
-        let mem_addr = if adv && chance("dump.stack.top_of_space", 1, 16) {
+        let mem_addr = if adv && chance("dump.stack.top_of_space", if w == 4 { 3 } else { 1 }, 16) {
             // stack at the very top of the address space
             let top = if w == 4 { 0x1_0000_0000u64 } else { 0 };
             let a = top.wrapping_sub(slen as u64);
             r.sp = a;
+            // mostly the stack moves as a whole: words that pointed into it (saved frame
+            // pointers) still do
+            if rng.below(4) != 0 {
+                let delta = a.wrapping_sub(sbase);
+                let be = BIG_ENDIAN.with(|b| b.get());
+                let mut off = 0usize;
+                while off + w as usize <= stack.len() {
+                    let v = if w == 4 {
+                        let b: [u8; 4] = stack[off..off + 4].try_into().unwrap();
+                        (if be { u32::from_be_bytes(b) } else { u32::from_le_bytes(b) }) as u64
+                    } else {
+                        let b: [u8; 8] = stack[off..off + 8].try_into().unwrap();
+                        if be { u64::from_be_bytes(b) } else { u64::from_le_bytes(b) }
+                    };
+                    if v >= sbase && v <= sbase + slen as u64 {
+                        put_word(&mut stack, off, w, v.wrapping_add(delta));
+                    }
+                    off += w as usize;
+                }
+                if r.fp >= sbase && r.fp <= sbase + slen as u64 {
+                    r.fp = r.fp.wrapping_add(delta);
+                    if w == 4 {
+                        r.fp &= 0xffff_ffff;
+                    }
+                }
+            }
             // and the frame pointer within a few words of the top
             if rng.below(2) == 0 {
                 r.fp = top.wrapping_sub(1 + rng.below(48) as u64);
@@ -1064,7 +1090,13 @@ pub fn gen_world(opts: &WorldOpts) -> World {
                 &[0x0f, 0x0b],                         // ud2
                 &[0x48, 0xff, 0x74, 0x24, 0x08],       // push [rsp+8]
             ];
-            let mut code = SNIPPETS[ch("dump.exc.snippet", 38) as usize].to_vec();
+            // a third of the time one of the forms with two address registers (base + index):
+            // both registers go through the bit-flip analysis, in whatever order they are kept
+            let mut code = if chance("dump.exc.two_reg", 1, 3) {
+                SNIPPETS[[3usize, 17, 18, 19, 20, 21][ch("dump.exc.two_reg.which", 6) as usize]].to_vec()
+            } else {
+                SNIPPETS[ch("dump.exc.snippet", 38) as usize].to_vec()
+            };
             if chance("dump.exc.structured_random", 1, 5) {
                 // prefixes + opcode + modrm/sib/disp drawn at random: breadth over the decoder
                 const PRE: [&[u8]; 12] = [&[], &[0x66], &[0xf2], &[0xf3], &[0x48], &[0x4c], &[0x0f], &[0x48, 0x0f], &[0xc5, 0xf8], &[0xc4, 0xe2, 0x79], &[0x62, 0xf1, 0x7c, 0x49], &[0x65, 0x48]];
@@ -1441,13 +1473,20 @@ fn rd32(b: &[u8], at: usize) -> Option<u32> {
 fn handle_stream_v2(e: Endian, adv: bool) -> SimpleStream {
     let stream_type = md::MINIDUMP_STREAM_TYPE::HandleDataStream as u32;
     let ndesc = 1 + ch("dump.handles.n", 3) as usize;
-    let shape = if adv { ch("dump.handles.shape", 8) } else { 0 };
+    let shape = if adv { ch("dump.handles.shape", 10) } else { 0 };
     let declared = match shape {
-        1 => u32::MAX,
+        1 | 8 | 9 => [u32::MAX, 0x0400_0000, 0x7fff_ffff][ch("dump.handles.count_x", 3) as usize],
         2 => 0,
         _ => ndesc as u32,
     };
-    let desc_size: u32 = if shape == 3 { 36 } else { 40 };
+    // the header states the size of a descriptor itself: an unknown size, and sizes (0, 1) for
+    // which any descriptor count "fits" into the stream
+    let desc_size: u32 = match shape {
+        3 => 36,
+        8 => 0,
+        9 => 1,
+        _ => 40,
+    };
     let mut sec = Section::with_endian(e).D32(16).D32(desc_size).D32(declared).D32(0);
     // chains: per descriptor 0-3 elements, each with a label
     let chains: Vec<Vec<Label>> = (0..ndesc).map(|_| (0..ch("dump.handles.chain", 4)).map(|_| Label::new()).collect()).collect();
